@@ -135,6 +135,20 @@ CHECKS = {
         technique="TLC-enumerated fault placements replayed into the code + TLC trace validation + differential twin runs",
         engine="tlc-gen+trace",
     ),
+    "C14": dict(
+        category="model_checking",
+        text="Deps.tla enumerates every assignment of abstract states (none / absent / same / other spelling / unwritable) to the four "
+        "manifest kinds and defines the acceptable sets of changed manifests (only one that can take the requirement and does not "
+        "declare it; exactly one when nothing declares it; report admits failure when none can); each abstract project is made "
+        "concrete with corpus texts per format and run with a dependency-adding codemod; Trace_Run judges the Deps step with the "
+        "manifest re-parsed by independent parsers (still parses, requirements and comments kept, requirement added exactly once, "
+        "diff = change, at most one manifest touched); a second run on the restored source must add nothing.",
+        design_ref="DESIGN.md §5 C14",
+        note="Trusted: TLC, harness/manifests.py (packaging / tomllib / ast / configparser). Which manifest is updated is not prescribed. "
+        "Three known findings (second run adds to another manifest; setup.py and setup.cfg forms not recognised on re-run).",
+        technique="TLA+ reference relation enumerated by TLC + replay into the code + TLC trace validation",
+        engine="tlc-gen+trace",
+    ),
 }
 
 NOT_APPLICABLE: list[dict] = []
